@@ -44,6 +44,28 @@ pub fn make(kind: &str, path: &str) -> Outcome<Box<dyn Adapter>> {
     })
 }
 
+/// Like `make`, with an instrumented layer directly above the base backend (below any compression
+/// wrapper) so that single writes can be made to fail.
+pub fn make_flaky(kind: &str, path: &str) -> Outcome<(Box<dyn Adapter>, Arc<crate::store::MonState>)> {
+    let base_kind = kind.split('+').next().unwrap().to_string();
+    let wrap = kind.to_string();
+    match make(&base_kind, path) {
+        Outcome::Ok(base) => {
+            let (inner, st) = crate::store::mon_over(base);
+            let b: Box<dyn Adapter> = if wrap.ends_with("+flate") {
+                Box::new(Flate2Adapter::new_dyn(inner))
+            } else if wrap.ends_with("+brotli") {
+                Box::new(BrotliAdapter::new(inner))
+            } else {
+                Box::new(inner)
+            };
+            Outcome::Ok((b, st))
+        }
+        Outcome::Err(e) => Outcome::Err(e),
+        Outcome::Panic(p) => Outcome::Panic(p),
+    }
+}
+
 /// The same backends constructed through `adapter::get_adapter(url)`
 pub fn make_by_url(kind: &str, path: &str) -> Outcome<Box<dyn Adapter>> {
     let wrap = if kind.ends_with("+flate") {
@@ -109,7 +131,21 @@ pub fn contract_case(seed: u64, case: u64, kind: &str, tmp: &str, nops: usize) -
     cleanup(&path);
     // every other case constructs the backend through its URL (adapter::get_adapter)
     let by_url = (case / 12) % 2 == 1;
-    let open = |k: &str, p: &str| if by_url { make_by_url(k, p) } else { make(k, p) };
+    let flaky: std::cell::RefCell<Option<Arc<crate::store::MonState>>> = std::cell::RefCell::new(None);
+    let open = |k: &str, p: &str| {
+        if by_url {
+            make_by_url(k, p)
+        } else {
+            match make_flaky(k, p) {
+                Outcome::Ok((b, st)) => {
+                    *flaky.borrow_mut() = Some(st);
+                    Outcome::Ok(b)
+                }
+                Outcome::Err(e) => Outcome::Err(e),
+                Outcome::Panic(pn) => Outcome::Panic(pn),
+            }
+        }
+    };
     let mut ad = match open(kind, &path) {
         Outcome::Ok(a) => a,
         o => {
@@ -126,7 +162,7 @@ pub fn contract_case(seed: u64, case: u64, kind: &str, tmp: &str, nops: usize) -
         }};
     }
     for step in 0..nops {
-        match r.below(15) {
+        match r.below(17) {
             0..=3 => {
                 let k = rand_key(&mut r);
                 let v = rand_bytes(&mut r);
@@ -221,6 +257,30 @@ pub fn contract_case(seed: u64, case: u64, kind: &str, tmp: &str, nops: usize) -
                             o => bad!("write-through-second-handle-failed", format!("step {} key {}: {}", step, k, o.describe())),
                         },
                         o => bad!("second-handle-open-failed", format!("step {}: {}", step, o.describe())),
+                    }
+                }
+            }
+            15 => {
+                // the base backend refuses one write; the retry of the same write must store the value
+                let st = flaky.borrow().clone();
+                if let Some(st) = st {
+                    let k = rand_key(&mut r);
+                    let v = rand_bytes(&mut r);
+                    let n = *st.nwrites.lock().unwrap();
+                    *st.fail_at.lock().unwrap() = vec![n];
+                    let r1 = guard(|| ad.write_object(&k, &v));
+                    st.fail_at.lock().unwrap().clear();
+                    let r2 = guard(|| ad.write_object(&k, &v));
+                    res.trace.push(format!("write {} with a refused first attempt: {} then {}", k, r1.describe(), r2.describe()));
+                    res.feat_add("refused_writes_retried", 1);
+                    if let Outcome::Panic(p) = &r1 {
+                        bad!("write-panics-when-backend-refuses", format!("step {} key {}: {}", step, k, p));
+                    }
+                    match r2 {
+                        Outcome::Ok(()) => {
+                            model.entry(k).or_insert(v);
+                        }
+                        o => bad!("retry-after-refused-write-failed", format!("step {} key {}: {}", step, k, o.describe())),
                     }
                 }
             }
